@@ -18,6 +18,7 @@ mod scen_c15;
 mod scen_link;
 mod scen_local;
 mod scen_tcp;
+mod scen_udp;
 
 use std::time::Instant;
 
@@ -28,6 +29,7 @@ use report::Outcome;
 fn generate(prop: &str, seed: u64, thorough: bool) -> Option<Plan> {
     match prop {
         "C01" => Some(scen_tcp::gen_c01(seed, thorough)),
+        "C02" => Some(scen_udp::gen_c02(seed, thorough)),
         "C04" => Some(scen_link::gen_c04(seed, thorough)),
         "C05" => Some(scen_link::gen_c05(seed, thorough)),
         "C08" => Some(scen_c08::gen_c08(seed, thorough)),
@@ -45,6 +47,7 @@ fn execute(plan: &Plan) -> Outcome {
         "local-hs" => scen_local::execute_c13(plan),
         "teardown" => scen_c15::execute_c15(plan),
         "survival" => scen_c08::execute_c08(plan),
+        "udp-system" => scen_udp::execute_udp(plan),
         other => {
             eprintln!("unknown scenario {other}");
             std::process::exit(2);
@@ -53,7 +56,7 @@ fn execute(plan: &Plan) -> Outcome {
 }
 
 fn cell_of(plan: &Plan) -> String {
-    plan.config.label()
+    format!("{}{}", plan.config.label(), if plan.config.users.len() > 1 && plan.config.proto == plan::Proto::Shadowsocks { "+users" } else { "" })
 }
 
 fn sample_of(plan: &Plan) -> serde_json::Value {
